@@ -21,8 +21,8 @@ INJECT = [
     ("src/util/string.rs", "incrate/string.rs", "verif_kani_string", ""),
     ("src/util/unicode.rs", "incrate/unicode.rs", "verif_kani_unicode", ""),
     ("src/value/node.rs", "incrate/node.rs", "verif_kani_node", ""),
-    ("src/lazyvalue/value.rs", "incrate/lazy_value.rs", "verif_kani_lazy_value", ""),
-    ("src/lazyvalue/owned.rs", "incrate/lazy_owned.rs", "verif_kani_lazy_owned", ""),
+    ("src/lazyvalue/value.rs", "incrate/lazy_value.rs", "verif_kani_lazy_value", "pub(crate)"),
+    ("src/lazyvalue/owned.rs", "incrate/lazy_owned.rs", "verif_kani_lazy_owned", "pub(crate)"),
     ("src/lazyvalue/iterator.rs", "incrate/iterator.rs", "verif_kani_iterator", ""),
     ("src/serde/de.rs", "incrate/serde_de.rs", "verif_kani_serde_de", ""),
     ("src/serde/ser.rs", "incrate/serde_ser.rs", "verif_kani_serde_ser", ""),
@@ -295,6 +295,6 @@ def resolve_unwindset(goto_binary, spec):
             unmatched.append((fsub, ordinal))
     if os.environ.get("VERIF_DEBUG_LOOPS"):
         for l in loops:
-            if l[0] in chosen:
-                log("[loops] %s line %d -> %d  (%s)" % (l[1][-60:], l[2], chosen[l[0]], l[0][-30:]))
+            if any(f in l[1] for f, _, _ in spec):
+                log("[loops] %s line %d -> %s  (%s)" % (l[1][-60:], l[2], chosen.get(l[0]), l[0][-30:]))
     return chosen, unmatched, len(loops)
